@@ -527,6 +527,26 @@ func (w *_node) AsString() (string, error) {
 	if err := compatibleKind(w.schemaType, datamodel.Kind_String); err != nil {
 		return "", err
 	}
+	if typ, ok := w.schemaType.(*schema.TypeEnum); ok {
+		if stg, ok := typ.RepresentationStrategy().(schema.EnumRepresentation_Int); ok {
+			if val := nonPtrVal(w.val); val.Kind() != reflect.String {
+				// An int-backed Go type for an int-represented enum holds the member's integer;
+				// at the type level the value is the member's name.
+				var i int64
+				if kindInt[val.Kind()] {
+					i = val.Int()
+				} else {
+					i = int64(val.Uint())
+				}
+				for member, reprInt := range stg {
+					if int64(reprInt) == i {
+						return member, nil
+					}
+				}
+				return "", fmt.Errorf("AsString: %d is not a valid member of enum %s", i, typ.Name())
+			}
+		}
+	}
 	if customConverter := w.cfg.converterFor(w.schemaType.Name(), w.val); customConverter != nil {
 		// user has registered a converter that takes the underlying type and returns a string
 		return customConverter.customToString(ptrVal(w.val).Interface())
@@ -993,6 +1013,22 @@ func (w *_assembler) AssignString(s string) error {
 		}
 		if !isMember {
 			return fmt.Errorf("AssignString: %q is not a valid member of enum %s", s, typ.Name())
+		}
+		if stg, ok := typ.RepresentationStrategy().(schema.EnumRepresentation_Int); ok {
+			if val := w.createNonPtrVal(); val.Kind() != reflect.String {
+				// An int-backed Go type for an int-represented enum holds the member's integer.
+				if kindInt[val.Kind()] {
+					val.SetInt(int64(stg[s]))
+				} else {
+					val.SetUint(uint64(stg[s]))
+				}
+				if w.finish != nil {
+					if err := w.finish(); err != nil {
+						return err
+					}
+				}
+				return nil
+			}
 		}
 	}
 	customConverter := w.cfg.converterFor(w.schemaType.Name(), w.val)
